@@ -1,24 +1,370 @@
 /-
 C08 — NNX vmap / scan / grad match the loop, the stack and jax.grad of the functional form.
-(work in progress: first theorem only)
+
+Model: Flax/Model/NnxLoop.lean (StateAxes.map_prefix, extract.check_consistent_aliasing, to_tree / from_tree with a
+shared ref_index / index_ref, _vmap_split_fn / VmapFn / vmap, _scan_split_in/_out, _scan_merge_in/_out, ScanFn, scan,
+_check_out_axes, _check_carry_same_references, DiffState / GradFn / _grad_general transcribed).
+Specification side: Flax/Proofs/NnxLoopSpec.lean — the reference computation stated per *Variable* (`VarId`), with no
+paths, graphdefs, states, deques or merges: `vmapSpecN` (one call per index on the per-Variable slices; every Variable
+left with its per-index values put together along its axis; results put together along the out axes).
+Helper lemmas live in Flax/Proofs/NnxLoop*.lean; this file holds the property's theorems.
+
+Named assumptions (DESIGN.md §5): A-VMAP (`jax.vmap` = one call per index, results stacked, `None` results unbatched —
+the verdict of that check is an input), A-SCAN (`laxScanX`), A-CONV (`Arr.take/stack/toFront/fromFront`), A-AD (`AD`),
+A-RNG (C09).  C04 refinement taken as a named hypothesis: the outer `from_tree` writes the returned states into the
+caller's Variables by identity (`updateStore`).
 -/
 import Flax.Model.NnxLoop
+import Flax.Proofs.NnxLoopVmapTop
+import Flax.Proofs.NnxLoopReject
+import Flax.Proofs.NnxLoopGrad
+import Flax.Proofs.LiftLoopAxes
+import Flax.Proofs.LiftLoopArr
+import Flax.Props.C14
+import Flax.Props.C09
 
 namespace Flax.C08
-open Flax.Filter Flax.LiftLoop Flax.NnxLoop
+open Flax.Filter Flax.NnxLoop
+open Flax.LiftLoop (Arr takeAt stackAt normAxis)
 
-/-- `map_prefix` returns the axis of the first filter whose predicate holds and raises when none does -/
+/-! ## 1. `StateAxes.map_prefix`: first match -/
+
+/-- **`state_axes_first_match`.**  For every `StateAxes`, path and Variable: `map_prefix` returns the axis of the first
+filter whose predicate holds (`firstMatch` is C14's index of the first matching predicate) and raises when none does. -/
 theorem state_axes_first_match (sa : StateAxes) (p : Path) (x : VarInfo) :
     mapPrefix sa p x =
       match sa[firstMatch (sa.map (·.1)) p x]? with
       | some fa => .ok fa.2
-      | none => .error .noAxisFound := by
-  induction sa with
-  | nil => simp [mapPrefix, firstMatch]
-  | cons fa rest ih =>
-    obtain ⟨f, a⟩ := fa
-    by_cases h : denote f p x = true
-    · simp [mapPrefix, firstMatch, h]
-    · simp [mapPrefix, firstMatch, h, ih]
+      | none => .error .noAxisFound :=
+  mapPrefix_eq sa p x
+
+/-- … so the axis is defined exactly when some filter matches, and it is the axis paired with the *first* matching
+filter: no earlier filter holds (C14 `firstMatch_spec`) -/
+theorem state_axes_first_match_spec (sa : StateAxes) (p : Path) (x : VarInfo) (a : Ax)
+    (h : mapPrefix sa p x = .ok a) :
+    ∃ f, sa[firstMatch (sa.map (·.1)) p x]? = some (f, a) ∧ denote f p x = true ∧
+      ∀ j, j < firstMatch (sa.map (·.1)) p x → ∀ g b, sa[j]? = some (g, b) → denote g p x = false := by
+  rw [mapPrefix_eq] at h
+  cases hs : sa[firstMatch (sa.map (·.1)) p x]? with
+  | none => rw [hs] at h; cases h
+  | some fa =>
+    rw [hs] at h
+    injection h with h
+    obtain ⟨f, a'⟩ := fa
+    simp only [] at h
+    subst h
+    have hsp := Flax.C14.firstMatch_spec (sa.map (·.1)) p x
+    refine ⟨f, rfl, ?_, ?_⟩
+    · exact hsp.2 f (by rw [List.getElem?_map, hs]; rfl)
+    · intro j hj g b hg
+      exact hsp.1 j hj g (by rw [List.getElem?_map, hg]; rfl)
+
+/-- **Every Variable of an argument is routed to exactly one state**, the one of its first matching filter, whose
+axis is what `map_prefix` answers for it (`ctx.split(x, *prefix.filters)` zipped with `prefix.axes`). -/
+theorem state_axes_partition {α : Type} (p : Prefix) (flat : Flat α) (sts : List (State α))
+    (h : splitFlat p flat = .ok sts) :
+    sts.length = p.axes.length ∧
+    (∀ x ∈ flat, ∃ s, sts[groupIdx p x.1 x.2.1]? = some s ∧ (x.1, x.2.2) ∈ s ∧
+      axAt p x.1 x.2.1 = p.axes[groupIdx p x.1 x.2.1]?) ∧
+    (∀ g s, sts[g]? = some s → ∀ pv ∈ s, ∃ x ∈ flat, pv = (x.1, x.2.2) ∧ groupIdx p x.1 x.2.1 = g) := by
+  obtain ⟨hl, hmem, hlt⟩ := splitFlat_spec h
+  refine ⟨hl, ?_, ?_⟩
+  · intro x hx
+    have hg := hlt x hx
+    exact ⟨_, List.getElem?_eq_getElem hg, (hmem _ _ (List.getElem?_eq_getElem hg) _).2 ⟨x, hx, rfl, rfl⟩, rfl⟩
+  · intro g s hs pv hpv
+    exact (hmem g s hs pv).1 hpv
+
+example : optX (mapPrefix [(.ofType "Param", .axis 0), (.pathContains "b", .bcast), (.everything, .carry)]
+    ["m", "b"] ⟨["BatchStat", "Variable"], none⟩) = some .bcast := by decide
+example : optX (mapPrefix [(.ofType "Param", .axis 0)] ["m", "b"] ⟨["BatchStat", "Variable"], none⟩) = none := by
+  decide
+
+/-! ## 2. aliasing under different axis specifications is rejected -/
+
+/-- what `check_consistent_aliasing` decides: no Variable with two different prefixes -/
+theorem consistent_iff_no_two_axes (np : NodePrefixes) :
+    consistent np = true ↔ ∀ x ∈ np, ∀ y ∈ np, x.1 = y.1 → x.2 = y.2 :=
+  consistent_iff np
+
+/-- **`inconsistent_aliasing_rejected`** (vmap).  For all arguments, prefixes, functions: if every occurrence of every
+Variable gets an axis but two occurrences of one Variable — in one argument under two paths, or in two arguments —
+get different ones, `nnx.vmap` raises `InconsistentAliasing`, whatever the function: nothing is traced, nothing written. -/
+theorem inconsistent_aliasing_rejected {α : Type} [Inhabited α] (inAxes outAxes : AxesSpec) (axisSize : Option Nat)
+    (verdict : Bool) (args : List (Arg α)) (store : Store α) (ps : List Prefix) (npF : NodePrefixes)
+    (hok : (inAxes.isBareStateAxes || inAxes.hasCarry || outAxes.hasCarry) = false)
+    (hps : inAxes.expand args.length = .ok ps)
+    (h : allPrefixes (ps.zip args) [] = .ok npF)
+    (x y : VarId × Ax) (hx : x ∈ npF) (hy : y ∈ npF) (hid : x.1 = y.1) (hne : x.2 ≠ y.2)
+    (hst : ∀ pa ∈ ps.zip args, ∀ es, pa.2 = .node es → ∀ e ∈ es, (store.lookup e.id).isSome) :
+    ∀ body : Body α, nnxVmap inAxes outAxes axisSize verdict body args store = .error .inconsistentAliasing := by
+  intro body
+  have hnc : consistent npF = false := by
+    cases hc : consistent npF with
+    | false => rfl
+    | true => exact absurd ((consistent_iff npF).1 hc x hx y hy hid) hne
+  exact nnxVmap_inconsistent inAxes outAxes axisSize verdict body args store ps npF hok hps h hnc hst
+
+/-- conversely, whenever `to_tree` goes through, all occurrences of every Variable agree: it is then treated as one
+object (one entry of the `index_ref`, one value seen by the function — `vmap_call_sees_slices`) -/
+theorem accepted_aliasing_is_consistent {α : Type} (store : Store α) (pas : List (Prefix × Arg α))
+    (pure : List (PureArg α)) (h : toTree store pas [] [] = .ok pure) :
+    ∃ npF, allPrefixes pas [] = .ok npF ∧ ∀ x ∈ npF, ∀ y ∈ npF, x.1 = y.1 → x.2 = y.2 := by
+  obtain ⟨npF, h1, h2⟩ := toTree_ok_consistent store pas [] [] pure rfl h
+  exact ⟨npF, h1, (consistent_iff npF).1 h2⟩
+
+/-- the error of a result, if it is one -/
+def errOf {β : Type} (r : Except Err β) : Option Err :=
+  match r with
+  | .error e => some e
+  | .ok _ => none
+
+/-- non-vacuity: one Variable (id 7) under `x/v` and `y/v` of one argument, `PathContains('x') ↦ 0`, everything else
+`None` (the `within-arg` experiment on the real code raises the same error) -/
+example : errOf (toTree (α := Int) [(7, ⟨[3], [([0], 1), ([1], 2), ([2], 3)]⟩)]
+    [(.sa [(.pathContains "x", .axis 0), (.everything, .bcast)],
+      .node [⟨["x", "v"], 7, ⟨["Param"], none⟩⟩, ⟨["y", "v"], 7, ⟨["Param"], none⟩⟩])] [] [])
+    = some .inconsistentAliasing := by decide
+
+/-! ## 3. `nnx.vmap` = one call per index on the slices, results and state stacked -/
+
+/-- **What every index sees** (`to_tree` → per-state slicing → inner `from_tree`).  For every store, argument list
+with Variables shared in any way, prefix per argument, index `i`: the traced function is called on exactly one value
+per reachable Variable, in first-occurrence order — `take(value, i, axis)` if the first matching filter of its
+argument's prefix gives an axis, the value itself if it gives `None` — and on the array arguments sliced likewise. -/
+theorem vmap_call_sees_slices {α : Type} [Inhabited α] (store : Store α) (i : Nat) (pas : List (Prefix × Arg α))
+    (pure sl : List (PureArg α)) (hwf : WFArgs pas) (ht : toTree store pas [] [] = .ok pure)
+    (hs : mapX (sliceArg i) pure = .ok sl) :
+    ∃ ins, mapX (sliceEntry store i) (ownedAll pas []) = .ok ins ∧ mergeAll sl [] = .ok ins ∧
+      mapX (sliceArr i) (arrArgs pas) = .ok (arraysOf sl) := by
+  obtain ⟨ins, h1, h2, h3⟩ := Flax.NnxLoop.vmap_call_sees_slices store i pas [] [] pure sl [] hwf ht hs rfl
+  exact ⟨ins, h1, by simpa using h2, h3⟩
+
+/-- **`vmap_eq_per_index`.**  For every function, store, argument list (aliasing included), `in_axes` / `out_axes`
+(single entries or tuples of ints, `None`, `StateAxes` of arbitrary filters), `axis_size` and verdict of jax's
+unbatchedness check: whenever `nnx.vmap` returns, the per-index reference `vmapSpecN` is defined for the same `n ≥ 1`
+indices and returns the same final store and the same results.  `vmapSpecN`: index `i` is `f` on the per-Variable slices;
+afterwards every Variable with an axis holds `jnp.stack` of its per-index values along that axis, every `None`
+Variable the shared (index-0) value; array results are stacked along their out axis (`None`: the unbatched value), fresh
+graph nodes Variable by Variable under the out prefix's first matching filter.
+
+Hypotheses: `hwf` — paths inside one graph node are distinct; `houts` — what a single trace guarantees about results
+(at every result position all indices return the same kind of thing, fresh nodes with the same Variables and distinct
+paths). -/
+theorem vmap_eq_per_index {α : Type} [Inhabited α] {inAxes outAxes : AxesSpec} {axisSize : Option Nat}
+    {verdict : Bool} {body : Body α} {args : List (Arg α)} {store : Store α} {res : Store α × List (Out α)}
+    (h : nnxVmap inAxes outAxes axisSize verdict body args store = .ok res)
+    (hwf : ∀ ps, inAxes.expand args.length = .ok ps → WFArgs (ps.zip args))
+    (houts : ∀ ps n calls, inAxes.expand args.length = .ok ps →
+      mapX (vmapCall body store (ps.zip args)) (List.range n) = .ok calls →
+      ∀ k col, column k (calls.map (·.2)) = .ok col → OutColWF col) :
+    ∃ ps n, inAxes.expand args.length = .ok ps ∧ 0 < n ∧ verdict = true ∧
+      inAxes.hasCarry = false ∧ outAxes.hasCarry = false ∧
+      vmapSpecN n outAxes body (ps.zip args) store = .ok res :=
+  nnxVmap_sound h hwf houts
+
+/-- state side of the above on its own: the caller's Variables end as `collectVal axis [per-index values]`, written
+in first-occurrence order; Variables not reachable from the arguments are untouched (`writeAll` only sets) -/
+theorem vmap_state_is_stack_of_updates {α : Type} [Inhabited α] (store0 : Store α) (pas : List (Prefix × Arg α))
+    (pure : List (PureArg α)) (hwf : WFArgs pas) (ht : toTree store0 pas [] [] = .ok pure)
+    (a0 : Store α) (arest : List (Store α)) (rows : List (List (List (State α))))
+    (hrows : mapX (fun st => mapX (splitArgOut st) pure) (a0 :: arest) = .ok rows)
+    (store store' : Store α) (hwb : vmapWriteBack rows pure store = .ok store') :
+    ∃ vals, mapX (collectEntry (a0 :: arest)) (ownedAll pas []) = .ok vals ∧ store' = writeAll vals store :=
+  vmap_write_back store0 pas [] [] pure hwf ht a0 arest rows hrows store store' hwb
+
+/-- the `None` case of `collectVal`: shared state is the (index-independent) value the calls left, not a stack -/
+theorem vmap_none_is_shared {α : Type} [Inhabited α] (v0 : Arr α) (vs : List (Arr α)) :
+    collectVal .bcast (v0 :: vs) = .ok v0 := rfl
+
+/-- and the axis case is `jnp.stack` along the declared (possibly negative) axis, whose `i`-th slice is the value index
+`i` left (C06 `stack_slice`): slicing on the way in and stacking on the way out are mutually inverse -/
+theorem vmap_axis_is_stack {α : Type} [Inhabited α] [DecidableEq α] (k : Int) (v0 : Arr α) (vs : List (Arr α))
+    (S : Arr α) (h : collectVal (.axis k) (v0 :: vs) = .ok S) (hwf : ∀ y ∈ v0 :: vs, Arr.WF y = true)
+    (i : Nat) (hi : i < (v0 :: vs).length) : sliceVal i (.axis k) S = .ok (v0 :: vs)[i] := by
+  simp only [collectVal] at h
+  have h' : stackAt k v0.shape (v0 :: vs) = .ok S := liftL_ok.1 h
+  unfold stackAt at h'
+  cases hn : normAxis (v0.shape.length + 1) k with
+  | none => simp [hn] at h'
+  | some n =>
+    simp only [hn] at h'
+    have hrank : S.rank = v0.shape.length + 1 := by
+      have hle : n ≤ v0.shape.length := by have := Flax.LiftLoop.normAxis_lt hn; omega
+      simp only [Arr.stack] at h'
+      split at h'
+      · injection h' with h'; subst h'; simp [Arr.rank, List.length_insertIdx, hle]
+      · cases h'
+    simp only [sliceVal, takeAt, hrank, hn]
+    rw [Flax.LiftLoop.Arr.take_stack v0.shape n (v0 :: vs) S h' hwf i hi]
+    rfl
+
+/-! non-vacuity: one graph node with a Param mapped along axis 0 and a shared BatchStat, plus a mapped array;
+`f(m, x): m.w += x; m.c += 1; return sum(m.w)` as a finite function -/
+
+def exVec (l : List Int) : Arr Int := Arr.ofFn [l.length] (fun i => l.getD (i.getD 0 0) 0)
+def exScalar (v : Int) : Arr Int := Arr.ofFn [] (fun _ => v)
+
+def exArgs : List (Arg Int) :=
+  [.node [⟨["c"], 1, ⟨["BatchStat", "Variable"], none⟩⟩, ⟨["w"], 0, ⟨["Param", "Variable"], none⟩⟩], .arr (exVec [5, 7])]
+
+def exIn : AxesSpec := .perArg [.sa [(.ofType "Param", .axis 0), (.everything, .bcast)], .ax (.axis 0)]
+
+def exStore : Store Int := [(0, exVec [10, 20]), (1, exScalar 3)]
+
+def exBody : Body Int := fun st arrs =>
+  match st, arrs with
+  | [(1, c), (0, w)], [x] =>
+    .ok ([(1, exScalar (c.getD [] + 1)), (0, exScalar (w.getD [] + x.getD []))], [.arr (exScalar (w.getD [] + x.getD []))])
+  | _, _ => .error (.body "KeyError")
+
+/-- observable part of a result: the store and the array results -/
+def exView (r : Except Err (Store Int × List (Out Int))) : Option (Store Int × List (Option (Arr Int))) :=
+  (optX r).map (fun x => (x.1, x.2.map (fun o => match o with | .arr a => some a | _ => none)))
+
+example : exView (nnxVmap exIn (.uniform (.ax (.axis 0))) none true exBody exArgs exStore)
+    = some ([(0, exVec [15, 27]), (1, exScalar 4)], [some (exVec [15, 27])]) := by decide
+
+example : exView (vmapSpecN 2 (.uniform (.ax (.axis 0))) exBody
+    ([Prefix.sa [(.ofType "Param", .axis 0), (.everything, .bcast)], .ax (.axis 0)].zip exArgs) exStore)
+    = some ([(0, exVec [15, 27]), (1, exScalar 4)], [some (exVec [15, 27])]) := by decide
+
+/-! ## 4. `nnx.scan`: the set-up checks -/
+
+/-- **`scan_out_axes_rejected`.**  `_check_out_axes` lets an `out_axes` through exactly when no entry is `None` and no
+`StateAxes` entry maps a filter to `None` or `Carry`; otherwise `nnx.scan(f, …)` raises (`Cannot broadcast output
+state` / `Cannot carry output state`) when it is built — whatever `in_axes`, function, arguments. -/
+theorem scan_out_axes_rejected (outAxes : AxesSpec) :
+    (checkOutAxes outAxes = .ok () ↔
+      match outAxes with
+      | .uniform p => p.okOut
+      | .perArg ps => ∀ p ∈ ps, p.okOut) ∧
+    (∀ e, checkOutAxes outAxes = .error e → (e = .outAxesBroadcast ∨ e = .outAxesCarry) ∧
+      ∀ {α : Type} [Inhabited α] (inAxes : AxesSpec) (length : Option Nat) (reverse : Bool) (nOuts : Nat)
+        (body : Body α) (args : List (Arg α)) (store : Store α),
+        nnxScan inAxes outAxes length reverse nOuts body args store = .error e) := by
+  constructor
+  · cases outAxes with
+    | uniform p => exact prefix_outOk_iff p
+    | perArg ps => exact prefixesOutOk_iff ps
+  · intro e he
+    constructor
+    · cases outAxes with
+      | uniform p => exact prefix_outOk_error he
+      | perArg ps => exact prefixesOutOk_error he
+    · intro α _ inAxes length reverse nOuts body args store
+      simp [nnxScan, scanSetup, he]
+
+example : checkOutAxes (.perArg [.ax .carry, .ax .bcast]) = .error .outAxesBroadcast := rfl
+example : checkOutAxes (.perArg [.ax .carry, .sa [(.ofType "Param", .axis 0), (.everything, .carry)]])
+    = .error .outAxesCarry := rfl
+example : checkOutAxes (.perArg [.ax .carry, .sa [(.ofType "Param", .axis 0), (.everything, .axis 1)]]) = .ok () := rfl
+
+/-- **carry references must be the same objects.**  `_check_carry_same_references` accepts exactly: no carry and
+nothing returned for it; an array carry and an array returned; a graph-node carry and *that very argument* returned.
+A fresh graph node, another argument, or an array where a node is carried raises `carryRefs`. -/
+theorem scan_carry_refs_checked {α : Type} (ca : CarryArg) (o : Option (Out α)) :
+    (∃ r, checkCarryRefs ca o = .ok r) ↔
+      (ca = .none ∧ o = none) ∨ (ca = .array ∧ ∃ a, o = some (.arr a)) ∨ (∃ k, ca = .node k ∧ o = some (.argRef k)) := by
+  cases ca with
+  | none =>
+    cases o with
+    | none => simp [checkCarryRefs]
+    | some x => simp [checkCarryRefs]
+  | array =>
+    cases o with
+    | none => simp [checkCarryRefs]
+    | some x => cases x <;> simp [checkCarryRefs]
+  | node k =>
+    cases o with
+    | none => simp [checkCarryRefs]
+    | some x =>
+      cases x with
+      | arr a => simp [checkCarryRefs]
+      | node vs => simp [checkCarryRefs]
+      | argRef j =>
+        simp only [checkCarryRefs]
+        by_cases hkj : k = j
+        · subst hkj; simp
+        · simp [hkj]
+          intro h; exact hkj h.symm
+
+/-! ## 5. `nnx.grad` / `nnx.value_and_grad`  (partial: A-AD) -/
+
+/-- **`grad_state_partition`, part 1: diff ⊎ nondiff.**  For `DiffState(i, f)` (a bare integer argnum is
+`DiffState(i, nnx.Param)`): `ctx.split(value, f, ...)` puts exactly the Variables of the argument that `f` matches into
+`diff` — the only state handed to jax as an argument — and all others into `nondiff`, which `GradFn` closes over;
+nothing is lost or duplicated (every item is in exactly one of the two). -/
+theorem grad_state_partition {α : Type} (f : NFilter) (flat : Flat α) :
+    ∃ diff nondiff, splitStatesX [f, .everything] flat = .ok [diff, nondiff] ∧
+      (∀ pv, pv ∈ diff ↔ ∃ x ∈ flat, pv = (x.1, x.2.2) ∧ denote f x.1 x.2.1 = true) ∧
+      (∀ pv, pv ∈ nondiff ↔ ∃ x ∈ flat, pv = (x.1, x.2.2) ∧ denote f x.1 x.2.1 = false) ∧
+      diff.length + nondiff.length = flat.length := by
+  refine ⟨_, _, split_diff_nondiff f flat, ?_, ?_, ?_⟩
+  · intro pv
+    simp only [List.mem_map, List.mem_filter]
+    constructor
+    · rintro ⟨x, ⟨hx, hd⟩, rfl⟩; exact ⟨x, hx, rfl, hd⟩
+    · rintro ⟨x, hx, rfl, hd⟩; exact ⟨x, ⟨hx, hd⟩, rfl⟩
+  · intro pv
+    simp only [List.mem_map, List.mem_filter, Bool.not_eq_eq_eq_not, Bool.not_true]
+    constructor
+    · rintro ⟨x, ⟨hx, hd⟩, rfl⟩; exact ⟨x, hx, rfl, hd⟩
+    · rintro ⟨x, hx, rfl, hd⟩; exact ⟨x, ⟨hx, hd⟩, rfl⟩
+  · simp only [List.length_map]
+    induction flat with
+    | nil => rfl
+    | cons x xs ih =>
+      simp only [List.filter_cons]
+      cases denote f x.1 x.2.1 <;> simp <;> omega
+
+/-- **part 2: one forward pass, gradients shaped like `diff`.**  Whenever `nnx.grad` / `nnx.value_and_grad` returns:
+the value and the aux are those of *one* call of `GradFn` (merge `diff` with the closed-over `nondiff`, run `f`, split
+again) at the original values; the caller's Variables are what that one call left — forward-pass side effects applied
+once; and the gradient returned for each differentiated position has exactly the paths and shapes of its `diff` state
+(resp. the shape of the array argument): unselected state is absent, selected state present.  That the numbers are the
+derivative is assumption A-AD about `jax.value_and_grad` (label: partial). -/
+theorem grad_value_aux_effects_once {α : Type} {ad : AD α} {argnums : List DiffArg} {hasAux : Bool} {body : Body α}
+    {args : List (Arg α)} {store : Store α} {r : GradRes α}
+    (h : nnxGrad ad argnums hasAux body args store = .ok r) :
+    ∃ ifl pure nondiff dins ga,
+      indexFilter argnums [] = .ok ifl ∧
+      gradToTree store ((argFilters ifl args.length).zip args) [] [] = .ok (pure, nondiff) ∧
+      dinOf pure (argnums.map (·.argnum)) = .ok dins ∧
+      gradFn body hasAux nondiff pure = .ok (r.loss, ga) ∧
+      r.aux = ga.aux ∧ gradWriteBack pure ga.argsOut store = .ok r.store ∧
+      r.grads.map DIn.struct = dins.map DIn.struct :=
+  nnxGrad_ok h
+
+/-- **part 3 (A-AD made explicit).**  The function handed to `jax.value_and_grad` is `GradFn` with the differentiated
+leaves substituted; any function extensionally equal to it — in particular "the loss written as a function of the
+selected Variables' values" — yields the same value, aux and gradients. -/
+theorem grad_depends_on_extension_only {α β : Type} (ad : AD α) (f g : List (DIn α) → Except Err (Arr α × β))
+    (x : List (DIn α)) (hfg : ∀ y, f y = g y) : ad.vag f x = ad.vag g x :=
+  ad_extensional ad f g x hfg
+
+/-- a repeated argnum is rejected before anything else happens -/
+theorem grad_repeated_argnum_rejected {α : Type} (ad : AD α) (d1 d2 : DiffArg) (rest : List DiffArg) (hasAux : Bool)
+    (body : Body α) (args : List (Arg α)) (store : Store α) (h : d1.argnum = d2.argnum) :
+    nnxGrad ad (d1 :: d2 :: rest) hasAux body args store = .error .repeatedArgnum := by
+  simp [nnxGrad, indexFilter, h, List.lookup]
+
+/-! ## 6. `split_rngs` / `restore_rngs` around a transform (corollary of C09) -/
+
+/-- **`split_restore_no_replay`.**  `split_rngs` consumes exactly one draw of the stream before splitting and
+`restore_rngs` restores the *post-draw* count: after the transform the stream resumes one draw later with its own key
+(C09 `split_restore_resumes`); no key drawn by any lane inside the transform equals any key the original stream hands
+out before or after (C09 `split_keys_fresh`); and different lanes / draws get different keys (C09 `split_lanes_distinct`). -/
+theorem split_restore_no_replay (tag : String) (k : Flax.Rng.SymKey) (c : Nat) (shape : List Nat) :
+    (∃ b s', Flax.Rng.Stream.splitOne { tag := tag, key := .scalar k, count := .scalar c } shape false = .ok (b, s') ∧
+      Flax.Rng.restoreLoop [(tag, s')] [b] = [(tag, { tag := tag, key := .scalar k, count := .scalar (c + 1) })]) ∧
+    (∀ idx t j, Flax.C09.laneKey k c shape idx t ≠ .foldIn k j) ∧
+    (∀ idx₁ idx₂ t₁ t₂, idx₁ ≠ idx₂ ∨ t₁ ≠ t₂ →
+      Flax.C09.laneKey k c shape idx₁ t₁ ≠ Flax.C09.laneKey k c shape idx₂ t₂) := by
+  refine ⟨?_, ?_, ?_⟩
+  · obtain ⟨b, s', h1, _, _, _, _, _, h7⟩ := Flax.C09.split_restore_resumes tag k c shape
+    exact ⟨b, s', h1, h7⟩
+  · intro idx t j; exact Flax.C09.split_keys_fresh k c shape idx t j
+  · intro i1 i2 t1 t2 h; exact Flax.C09.split_lanes_distinct k c shape i1 i2 t1 t2 h
 
 end Flax.C08
